@@ -18,6 +18,26 @@ CHECKS = {
    text="Symbolic IC10 machine with region monitor (owner function of every line from the compiler's instruction list): on every explored path control may enter a function region only by a call / tail call to its first line or by a return. The main->first-function fall-through of the pinned tree is a known finding keyed by mechanism; any other crossing is a violation.",
    note="Trusted: region alignment from the captured instruction list; IC10 machine. Programs enumerated, inputs solver-quantified.",
    technique="symbolic execution with region monitor, z3 path feasibility, concrete replay"),
+ "C02": dict(level="translation_validation", design="DESIGN.md 4 C02",
+   text="Each program is compiled under all 32 vectors of the five semantic options; outputs are reduced to a label-free canonical form; one representative per distinct canonical program is compared with the default vector's output on the symbolic IC10 machine (z3 decides trace equality for all inputs per path, counterexamples replayed). Comment/version options and the '# pytrapic:' route are compared on the canonical form / text.",
+   note="Trusted: loader + canonical form, IC10 machine, real-arithmetic abstraction with concrete replay. Programs enumerated; inputs solver-quantified within bounds.",
+   technique="canonical-form grouping + symbolic IC10-vs-IC10 trace equivalence with z3, concrete replay"),
+ "C03": dict(level="proof", design="DESIGN.md 4 C03, 2.3", engine="E2",
+   text="Set A: every entry of the real operator tables is executed on symbolic operands (z3 Float64 / signed 64-bit) through an instrumented copy of utils.py; per path z3 proves fold == IC10 semantics of the emitted opcode for all operand values in the stated range (bounded only by operand width; no sampling). Set B: constant-propagation shapes are checked by IC10-vs-IC10 equivalence of a folded program and its twin with operands loaded from the stack.",
+   note="Trusted: Python float/int semantics of the proxies, IC10 oracle semantics, uninterpreted pow/fmod shared by both sides, z3. Proof level refers to Set A (all values); Set B enumerates shapes.",
+   technique="symbolic execution of the real fold lambdas into QF_BVFP, z3 validity per path, replay on the real table"),
+ "C05": dict(level="exploration", design="DESIGN.md 4 C05",
+   text="Per program and option vector: labelled output loads (each referenced label defined once), numeric targets of the de-labelled output in range, and the label-free canonical forms of both are identical (line-for-line statement); on mismatch z3 trace equivalence shows the behavioural difference. Identifier quantifier: adversarial name pool instantiated in templates (enumerated).",
+   note="The identifier dimension is enumerated, not solver-quantified (symbolic label strings through remove_labels are not built). Trusted: loader and canonical form.",
+   technique="closed canonical-form comparison of real outputs; z3 IC10-vs-IC10 equivalence on mismatch"),
+ "C08": dict(level="exploration", design="DESIGN.md 4 C08",
+   text="Verbose and compact outputs of the same source are loaded (independent CRC-32, STR packing, statically extracted enum tables) and must be the same canonical instruction sequence; E2 part: calc_hash / compute_string / _apply_output_mode executed on symbolic arguments.",
+   note="Enum name->number is taken from the repository's tables (C16 checks their consistency).",
+   technique="closed canonical comparison via independent loader + symbolic execution of the numeric kernels with z3"),
+ "C09": dict(level="exploration", design="DESIGN.md 4 C09",
+   text="Every output of every family under rotating/all option vectors is parsed against an IC10 signature table written for this project (cross-checked with webapp/src/ic10.json); placeholders and Python spellings are rejected; version-note line <= 90. E2 part: IC10Operand/format_int/version-note arithmetic on symbolic values.",
+   note="Grammar table is the trusted base; scientific notation treated as unloadable.",
+   technique="grammar-table loading of real outputs + symbolic execution of the formatter kernels with z3"),
 }
 NA = {
  "C10": "quantifies over arbitrary texts (C parser boundary), wall-clock time and OS child processes; no SMT-encodable assertion over the code within reach (DESIGN.md 5)",
